@@ -1,8 +1,8 @@
 SPECIFICATION Spec
 CONSTANTS
-  Cap = 2
+  Cap = 1
   Scripts <- MCBadForSequential
-  Sequential = TRUE
-  Mode = "mc"
+  Sequential = FALSE
+  Mode = "trace"
   EmitTR = FALSE
-INVARIANTS Delivered InOrder
+CHECK_DEADLOCK FALSE
